@@ -15,6 +15,7 @@ import JsonbModel.Driver.SelectOps
 import JsonbModel.Driver.SerdeOps
 import JsonbModel.Driver.TextFnOps
 import JsonbModel.Driver.ChainOps
+import JsonbModel.Driver.TextFn2Ops
 
 namespace Jsonb.Driver
 open Jsonb.Wire
@@ -83,6 +84,9 @@ def step (line : String) : String :=
                       | none =>
                         match chainStepD req with
                         | some r => r
-                        | none => badReq
+                        | none =>
+                          match textFn2Step req with
+                          | some r => r
+                          | none => badReq
 
 end Jsonb.Driver
